@@ -31,15 +31,16 @@ pub struct Element<T> {
 
 impl<T: std::cmp::PartialEq + std::fmt::Display + std::fmt::Debug> Element<T> {
     pub fn new(name: T, attributes: Vec<T>) -> Element<T> {
+        let mut unique_attributes = Vec::new();
+        for a in attributes {
+            add_unique(&mut unique_attributes, Necessity::Mandatory(a));
+        }
         Element {
             name,
             text: None,
             count: 1,
             standalone: true,
-            attributes: attributes
-                .into_iter()
-                .map(|a| Necessity::Mandatory(a))
-                .collect::<Vec<Necessity<T>>>(),
+            attributes: unique_attributes,
             children: Vec::new(),
             position: None,
         }
